@@ -1,17 +1,16 @@
 #!/bin/sh
 # MANIFEST.setup_cmd: build everything from files on disk, offline.
-set -e
 root="$(cd "$(dirname "$0")/.." && pwd)"
 cd "$root"
 export CARGO_NET_OFFLINE=true CARGO_TARGET_DIR="$root/.cache/target"
 mkdir -p .cache
 # 1. generated tables (translator, DESIGN 3.3) -- needs the harness
-cargo build --offline --manifest-path harness/Cargo.toml 2>&1 | tail -3
+cargo build --offline --manifest-path harness/Cargo.toml --bins 2>&1 | tail -3
 [ -x tools/gen_tables.py ] && python3 tools/gen_tables.py || true
 # 2. the whole Coq development (full .vo build)
 cd coq
 coq_makefile -f _CoqProject -o Makefile
-make -j16 2>&1 | grep -v '^COQDEP\|^COQC\|Closed under the global context' | tail -40
+make -k -j16 2>&1 | grep -v '^COQDEP\|^COQC\|Closed under the global context' | tail -40
 cd ..
 # 3. extracted models
 for f in coq/model_*.ml; do
